@@ -27,13 +27,26 @@ package rest
 //	   slices= every caller slice as it reads after the call (the caller's routes must not change).
 //	req … [auth=<secret>]                      a JWT signed with <secret> in the Authorization header
 
+// Round 5:
+//
+//	req … [ctx=<k=v,…>] [beh=<kind>]   ctx: the request arrives with pathvar variables of an outer router in its context;
+//	       beh: what the user handler that runs does: w<code> writes that status, perr / pstr / pabort panic with an
+//	       error / a string / http.ErrAbortHandler, goexit calls runtime.Goexit.  Outcomes then carry ` status=<c>`
+//	       (route handler ran, response status not 200), ` end=<kind>`, ` esc=<panic|goexit>` (it left ServeHTTP).
+//	opt router                          rest.WithRouter(router.NewRouter())
+//	use id=<k>               => ok      Server.Use(middleware u<k>)
+//	start                    => listen | panic:<verdict>     Server.Start() with a port that cannot be opened
+//	cfg must=1                          the server is built by rest.MustNewServer
+
 import (
 	"errors"
 	"fmt"
+	"net"
 	"net/http"
 	"net/http/httptest"
 	"net/url"
 	"path"
+	"runtime"
 	"sort"
 	"strings"
 	"testing"
@@ -79,6 +92,40 @@ func (g *c09SrvGen) toks(depth0, mode int) []string {
 	return out
 }
 
+// c09SrvExtras: the request-side dimensions of round 5 — variables of an outer router already in the context, and
+// every outcome kind of the user handler.
+func c09SrvExtras(r *verifh.Rng) string {
+	out := ""
+	if r.Chance(1, 6) {
+		out += " ctx=" + r.PickS("x=outer", "x=outer", "q=1,x=2", "id=7", "y=o,z=o", "")
+	}
+	if r.Chance(1, 6) {
+		out += " beh=" + r.PickS("w201", "w204", "w301", "w404", "w405", "w500", "w503", "perr", "pstr", "pabort", "goexit")
+	}
+	return out
+}
+
+// c09SrvUses inserts 0-2 Server.Use calls anywhere from position lo on (before, between and after the AddRoutes calls).
+func c09SrvUses(r *verifh.Rng, ops []string, lo int) []string {
+	if !r.Chance(1, 4) {
+		return ops
+	}
+	for i, n := 0, r.Pick(1, 1, 2); i < n; i++ {
+		at := lo + r.Intn(len(ops)-lo+1)
+		op := fmt.Sprintf("use id=%d", i+1)
+		ops = append(ops[:at], append([]string{op}, ops[at:]...)...)
+	}
+	return ops
+}
+
+// c09SrvCfg: how the server is built and started.
+func c09SrvBind(r *verifh.Rng) string {
+	if r.Chance(1, 3) {
+		return "start"
+	}
+	return "bind"
+}
+
 func c09Render(toks []string) string {
 	return "/" + strings.Join(toks, "/")
 }
@@ -92,7 +139,9 @@ func (g *c09SrvGen) section() verifh.Section {
 	var ops []string
 	// options (a later one overwrites an earlier one)
 	for i, n := 0, r.Pick(0, 0, 1, 1, 2, 3); i < n; i++ {
-		switch r.Intn(7) {
+		switch r.Intn(8) {
+		case 7:
+			ops = append(ops, "opt router")
 		case 0:
 			ops = append(ops, "opt nf=nil")
 		case 1, 2:
@@ -103,6 +152,7 @@ func (g *c09SrvGen) section() verifh.Section {
 			ops = append(ops, "opt na="+r.PickS("801", "802", "418", "405"))
 		}
 	}
+	nopts := len(ops)
 	type reg struct {
 		m    string
 		toks []string // joined tokens (as the router will see them), nil if not representable
@@ -230,9 +280,10 @@ func (g *c09SrvGen) section() verifh.Section {
 			ops = append(ops, "group "+strings.Join(rs, " "))
 		}
 	}
-	ops = append(ops, "bind")
+	ops = c09SrvUses(r, ops, nopts)
+	ops = append(ops, c09SrvBind(r))
 	if r.Chance(1, 40) {
-		ops = append(ops, "bind") // binding twice registers everything twice
+		ops = append(ops, c09SrvBind(r)) // binding twice registers everything twice
 	}
 	tok := func() string {
 		if r.Chance(1, 10) {
@@ -299,13 +350,13 @@ func (g *c09SrvGen) section() verifh.Section {
 		case x < 24:
 			p = r.PickS("", "a", "a/b", ".")
 		}
-		ops = append(ops, fmt.Sprintf("req m=%s p=%s n=%d", m, p, rep))
+		ops = append(ops, fmt.Sprintf("req m=%s p=%s n=%d", m, p, rep)+c09SrvExtras(r))
 	}
 	mw := 0
 	if r.Chance(1, 4) {
 		mw = 1 // native middlewares between the router and the route handler
 	}
-	return verifh.Section{Cfg: fmt.Sprintf("kind=server mode=%d mw=%d", mode, mw), Ops: ops}
+	return verifh.Section{Cfg: fmt.Sprintf("kind=server mode=%d mw=%d must=%d", mode, mw, r.Pick(0, 0, 1)), Ops: ops}
 }
 
 // sectionAPI: route tables built through the public API in all its forms: caller-owned slices that are added
@@ -316,13 +367,16 @@ func (g *c09SrvGen) sectionAPI() verifh.Section {
 	r := g.r
 	var ops []string
 	for i, n := 0, r.Pick(0, 0, 1, 2); i < n; i++ {
-		switch r.Intn(4) {
+		switch r.Intn(5) {
+		case 4:
+			ops = append(ops, "opt router")
 		case 0:
 			ops = append(ops, "opt nf="+r.PickS("701", "410", "nil"))
 		default:
 			ops = append(ops, "opt na="+r.PickS("801", "418", "nil"))
 		}
 	}
+	nopts := len(ops)
 	names := []string{"x", "y", "z", "w", "v", "u", "t"}
 	type rt struct {
 		m    string
@@ -452,7 +506,8 @@ func (g *c09SrvGen) sectionAPI() verifh.Section {
 			mounts = append(mounts, mount{x.m, append(append([]string{}, ptoks...), x.toks...), secret})
 		}
 	}
-	ops = append(ops, "bind")
+	ops = c09SrvUses(r, ops, nopts)
+	ops = append(ops, c09SrvBind(r))
 	tok := func() string { return r.PickS("a", "b", "c", "d", "Ab", "api", "v1") }
 	nreq := r.Range(6, verifh.Scale(18, 30))
 	for i := 0; i < nreq; i++ {
@@ -499,13 +554,13 @@ func (g *c09SrvGen) sectionAPI() verifh.Section {
 		case x < 68:
 			op += " auth=secret-zzzz"
 		}
-		ops = append(ops, op)
+		ops = append(ops, op+c09SrvExtras(r))
 	}
 	mw := 0
 	if r.Chance(1, 4) {
 		mw = 1
 	}
-	return verifh.Section{Cfg: fmt.Sprintf("kind=server mode=0 mw=%d api=1", mw), Ops: ops}
+	return verifh.Section{Cfg: fmt.Sprintf("kind=server mode=0 mw=%d api=1 must=%d", mw, r.Pick(0, 0, 1)), Ops: ops}
 }
 
 func c09SrvGenAll(r *verifh.Rng) []verifh.Section {
@@ -549,12 +604,38 @@ func TestVerifC09Server(t *testing.T) {
 	secs := verifh.Sections(c09SrvGenAll)
 	verifh.Run(t, secs, func(cfg verifh.Cfg) (func(op []string) string, func()) {
 		var hits []c09SrvHit
+		beh, ended := "", ""
+		// what the user handler does after it has been recorded
+		act := func(w http.ResponseWriter, route bool) {
+			switch {
+			case beh == "":
+				return
+			case beh[0] == 'w':
+				if route {
+					ended = beh
+					w.WriteHeader(verifh.Atoi(beh[1:]))
+				}
+			case beh == "perr":
+				ended = beh
+				panic(errors.New("c09: handler failed"))
+			case beh == "pstr":
+				ended = beh
+				panic("c09: handler panic")
+			case beh == "pabort":
+				ended = beh
+				panic(http.ErrAbortHandler)
+			case beh == "goexit":
+				ended = beh
+				runtime.Goexit()
+			}
+		}
 		custom := func(kind string, id int) http.Handler {
 			return http.HandlerFunc(func(w http.ResponseWriter, r *http.Request) {
 				hits = append(hits, c09SrvHit{kind, id, nil})
 				if id >= 400 && id <= 599 {
 					w.WriteHeader(id)
 				}
+				act(w, false)
 			})
 		}
 		var opts []RunOption
@@ -570,6 +651,7 @@ func TestVerifC09Server(t *testing.T) {
 			id := verifh.Atoi(f[2])
 			return Route{Method: f[0], Path: f[1], Handler: func(w http.ResponseWriter, r *http.Request) {
 				hits = append(hits, c09SrvHit{"h", id, pathvar.Vars(r)})
+				act(w, true)
 			}}, true
 		}
 		// route options of an add / addone op, in the order written; mw=<n> asks for rest.WithMiddlewares
@@ -638,7 +720,12 @@ func TestVerifC09Server(t *testing.T) {
 					conf.MaxConns = 10000
 					conf.MaxBytes = 1 << 20
 				}
-				srv, err = NewServer(conf, opts...)
+				conf.Port = -1 // Start(): the registration is bound first, then the listener fails at once
+				if cfg.Int("must", 0) == 1 {
+					srv = MustNewServer(conf, opts...)
+				} else {
+					srv, err = NewServer(conf, opts...)
+				}
 				if err != nil {
 					panic(err)
 				}
@@ -666,7 +753,27 @@ func TestVerifC09Server(t *testing.T) {
 					}
 					return "ok"
 				}
+				if len(op) == 2 && op[1] == "router" {
+					opts = append(opts, WithRouter(router.NewRouter()))
+					return "ok"
+				}
 				return "bad-op"
+			case "use":
+				build()
+				ids, ok := c09SrvArg(op, "id=")
+				if !ok {
+					return "bad-op"
+				}
+				srv.Use(func(next http.HandlerFunc) http.HandlerFunc {
+					return func(w http.ResponseWriter, r *http.Request) {
+						trail = append(trail, "u"+ids)
+						next(w, r)
+					}
+				})
+				return "ok"
+			case "start":
+				build()
+				return c09SrvStart(srv)
 			case "group":
 				build()
 				var rs []Route
@@ -681,6 +788,7 @@ func TestVerifC09Server(t *testing.T) {
 					id := verifh.Atoi(f[2])
 					rs = append(rs, Route{Method: f[0], Path: f[1], Handler: func(w http.ResponseWriter, r *http.Request) {
 						hits = append(hits, c09SrvHit{"h", id, pathvar.Vars(r)})
+						act(w, true)
 					}})
 				}
 				before := len(srv.Routes())
@@ -749,22 +857,7 @@ func TestVerifC09Server(t *testing.T) {
 				return listing()
 			case "bind":
 				build()
-				err := srv.ngin.bindRoutes(srv.router)
-				switch {
-				case err == nil:
-					return "ok"
-				case errors.Is(err, router.ErrInvalidMethod):
-					return "badmethod"
-				case errors.Is(err, router.ErrInvalidPath):
-					return "badpath"
-				case strings.HasPrefix(err.Error(), "duplicated item for "):
-					return "dup"
-				case strings.HasPrefix(err.Error(), "duplicated slash for "):
-					return "dupslash"
-				case err.Error() == "empty item":
-					return "empty"
-				}
-				return "err:" + strings.ReplaceAll(err.Error(), " ", "_")
+				return c09SrvVerdict(srv.ngin.bindRoutes(srv.router))
 			case "req":
 				build()
 				m, _ := c09SrvArg(op, "m=")
@@ -779,6 +872,16 @@ func TestVerifC09Server(t *testing.T) {
 					}
 					bearer = "Bearer " + tok
 				}
+				beh, _ = c09SrvArg(op, "beh=")
+				var outer map[string]string
+				if cv, ok := c09SrvArg(op, "ctx="); ok {
+					outer = map[string]string{}
+					for _, kv := range strings.Split(cv, ",") {
+						if i := strings.IndexByte(kv, '='); i >= 0 {
+							outer[kv[:i]] = kv[i+1:]
+						}
+					}
+				}
 				seen := map[string]bool{}
 				for i := 0; i < n; i++ {
 					req := httptest.NewRequest(http.MethodGet, "/", nil)
@@ -787,10 +890,14 @@ func TestVerifC09Server(t *testing.T) {
 					if bearer != "" {
 						req.Header.Set("Authorization", bearer)
 					}
+					if outer != nil {
+						req = pathvar.WithVars(req, outer) // an outer router bound these
+					}
 					rec := httptest.NewRecorder()
 					hits = hits[:0]
 					trail = trail[:0]
-					srv.router.ServeHTTP(rec, req)
+					ended = ""
+					esc := c09SrvServe(srv.router, rec, req)
 					var o string
 					switch {
 					case len(hits) > 1:
@@ -806,7 +913,7 @@ func TestVerifC09Server(t *testing.T) {
 							o += " mw=" + strings.Join(trail, ".")
 						}
 						if rec.Code != 200 {
-							o += fmt.Sprintf(" code=%d", rec.Code)
+							o += fmt.Sprintf(" status=%d", rec.Code)
 						}
 					case len(trail) > 0:
 						o = "middleware-without-handler=" + strings.Join(trail, ".")
@@ -829,8 +936,15 @@ func TestVerifC09Server(t *testing.T) {
 					default:
 						o = fmt.Sprintf("code=%d", rec.Code)
 					}
+					if ended != "" {
+						o += " end=" + ended
+					}
+					if esc != "" {
+						o += " esc=" + esc
+					}
 					seen[o] = true
 				}
+				beh = ""
 				var outs []string
 				for o := range seen {
 					outs = append(outs, o)
@@ -842,4 +956,63 @@ func TestVerifC09Server(t *testing.T) {
 		}
 		return step, nil
 	})
+}
+
+// c09SrvServe runs ServeHTTP in a goroutine of its own (a handler may call runtime.Goexit) and reports how the
+// call ended: "" (returned), "panic" or "goexit".
+func c09SrvServe(h http.Handler, w http.ResponseWriter, r *http.Request) string {
+	res := make(chan string, 1)
+	go func() {
+		how := "goexit"
+		defer func() {
+			if recover() != nil {
+				how = "panic"
+			}
+			res <- how
+		}()
+		h.ServeHTTP(w, r)
+		how = ""
+	}()
+	return <-res
+}
+
+func c09SrvVerdict(err error) string {
+	switch {
+	case err == nil:
+		return "ok"
+	case errors.Is(err, router.ErrInvalidMethod):
+		return "badmethod"
+	case errors.Is(err, router.ErrInvalidPath):
+		return "badpath"
+	case strings.HasPrefix(err.Error(), "duplicated item for "):
+		return "dup"
+	case strings.HasPrefix(err.Error(), "duplicated slash for "):
+		return "dupslash"
+	case err.Error() == "empty item":
+		return "empty"
+	}
+	return "err:" + strings.ReplaceAll(err.Error(), " ", "_")
+}
+
+// c09SrvStart calls the public Server.Start().  The configured port cannot be opened, so Start either panics with
+// the error of the registration (engine.start returns it before listening) or with the listener's error.
+func c09SrvStart(srv *Server) (out string) {
+	defer func() {
+		v := recover()
+		switch e := v.(type) {
+		case nil:
+			out = "returned"
+		case error:
+			var oe *net.OpError
+			if errors.As(e, &oe) || strings.Contains(e.Error(), "listen") {
+				out = "listen"
+			} else {
+				out = "panic:" + c09SrvVerdict(e)
+			}
+		default:
+			out = fmt.Sprintf("panic:value:%v", v)
+		}
+	}()
+	srv.Start()
+	return "returned"
 }
